@@ -4,7 +4,8 @@ import KrroodVerif.Model.Dao
 Driver of C04 (and the case parser shared with C05). Case line:
 `(g (roots r…) (via k) (n <oid> <Class> <plain|alt|sub> "<scalars>" <MappingClass|-> "<mapping columns>" (tabs T…) <ref>…) …)`
 with `<ref>` = `(none)` | `(one t)` | `(many <assoc table> t…)` | `(none! <column>)` | `(one! <column> t)` (`!` = the
-field references the source's own table hierarchy). Nodes are listed in oid order 0,1,2,….
+field references the source's own table hierarchy) | `(extra <table> n)` (rows of mapped sub-objects the object's
+`create_instance` builds on the fly). Nodes are listed in oid order 0,1,2,….
 -/
 namespace KrroodVerif.Drive.C04
 open KrroodVerif.Dao
@@ -30,9 +31,13 @@ def parseNode : List Sexp → Option (Nat × Node)
     let oid ← oid.asNat?
     let kind ← parseKind kind
     let tabs ← tabs.mapM Sexp.asAtom?
-    let rs ← refs.mapM parseRef
+    let isExtra : Sexp → Bool := fun x => match x with | .list (.atom "extra" :: _) => true | _ => false
+    let extra ← (refs.filter isExtra).mapM fun x => match x with
+      | .list [.atom "extra", .atom t, n] => n.asNat?.map fun n => (t, n)
+      | _ => none
+    let rs ← (refs.filter fun x => !isExtra x).mapM parseRef
     pure (oid, { lab := ⟨cls, scal⟩, kind := kind, view := ⟨mcls, mscal⟩, tabs := tabs,
-                 fields := rs.map (·.2), refs := rs.map (·.1) })
+                 fields := rs.map (·.2), refs := rs.map (·.1), extra := extra })
   | _ => none
 
 def parseCase : Sexp → Option Case
